@@ -210,7 +210,9 @@ fn coq_case(c: &Case, expect: &[u64]) -> String {
     let evs = coq_list(&c.evs, |e| format!("{{| eseq := {}; ets := {}; ekd := {}; eident := {} |}}", e.seq, e.ts, coq_k(&e.k), e.ident));
     format!(
         "{{| c_max_frames := {}; c_max_out := {}; c_af := {}; c_evs := {}; c_probes := {}; c_expect := {} |}}",
-        coq_nat(c.max_frames),
+        // the model's window size is a unary nat: a window larger than the number of frames of the case is written as
+        // that number + 1 (no eviction can happen under either; the implementation runs with the real setting)
+        coq_nat(c.max_frames.min(c.evs.len() as u64 + 1)),
         c.max_out,
         coq_bool(c.af),
         evs,
@@ -1126,8 +1128,10 @@ fn gen_ws(r: &mut Rng) -> String {
 }
 
 fn gen_case(r: &mut Rng, long: bool) -> Case {
-    let max_frames = *r.pick(&[0u64, 1, 2, 3, 3, 5, 8, 40]);
-    let max_out = *r.pick(&[0u64, 1, 2, 3, 5, 7, 16, 33, 64, 1000]);
+    // capacity settings are in the property's quantifier: tiny windows, and windows no run will ever fill ("no limit"
+    // spelled usize::MAX, isize::MAX, 2^62, a million) - a store that reserves or indexes by the configured size fails there
+    let max_frames = if r.chance(1, 8) { *r.pick(&[1_000_000u64, 1 << 62, u64::MAX / 2, u64::MAX]) } else { *r.pick(&[0u64, 1, 2, 3, 3, 5, 8, 40]) };
+    let max_out = if r.chance(1, 10) { *r.pick(&[8192u64, 10_000, 1 << 20, 1 << 62, u64::MAX]) } else { *r.pick(&[0u64, 1, 2, 3, 5, 7, 16, 33, 64, 1000]) };
     let af = r.chance(3, 4);
     let n = if long { r.range(20, 60) } else { r.range(0, 14) };
     let mode = r.below(5); // 0 consecutive, 1 gaps, 2 repeats/arbitrary, 3 huge, 4 decreasing
@@ -1291,7 +1295,9 @@ fn preview_overflow_cases() -> Vec<Case> {
                 seq -= 1;
             }
         }
-        out.push(Case { max_frames: 40, max_out: 64, af: true, evs, probes: vec![0, 1, seq] });
+        // the previews have their own cap (8192), whatever the canvas capacity is: small, just above it, the default, huge
+        let max_out = [64u64, 20_000, 1 << 20, 64, 9000, 1 << 20, 64, 8192][vi];
+        out.push(Case { max_frames: 40, max_out, af: true, evs, probes: vec![0, 1, seq] });
     }
     out
 }
